@@ -35,8 +35,8 @@ type Case struct {
 	All     bool              `json:"all"`
 	Engines map[string]EngObs `json:"engines"`
 	Wasm    string            `json:"wasm"`
-	Lib     string            `json:"lib,omitempty"` // hex of a second module "lib" instantiated first (cross-module cases)
-	CloseCM bool              `json:"close_cm"`      // the CompiledModule values are closed after instantiation, before the calls (documented as safe)
+	Lib     string            `json:"lib,omitempty"`   // hex of a second module "lib" instantiated first (cross-module cases)
+	CloseCM bool              `json:"close_cm"`        // the CompiledModule values are closed after instantiation, before the calls (documented as safe)
 	Decoy   []bool            `json:"decoy,omitempty"` // the same binary was compiled before, on the same runtime, with THIS listener set (kept open)
 }
 
@@ -200,6 +200,7 @@ func runOn(engine string, m *c.ModSpec, bin []byte, calls [][]uint64, mask []boo
 func main() {
 	seed := flag.Uint64("seed", 1, "")
 	n := flag.Int("n", 100, "")
+	ln := flag.Int("ln", 40, "linked cases")
 	flag.Parse()
 	rng := c.NewRng(*seed)
 	out := c.NewOut()
@@ -331,11 +332,11 @@ func main() {
 		mm.Types = [][]byte{c.FT(c.B(c.I32), c.B(c.I32))}
 		mm.Imports = [][]byte{c.ImportFunc("lib", "g", 0), c.ImportFunc("lib", "g2", 0)}
 		bodies := [][]byte{
-			c.Cat(c.LocalGet(0), c.Call(0)),                                                                // end
-			c.Cat(c.LocalGet(0), c.Call(1), c.B(0x0c, 0)),                                                  // br 0
-			c.Cat(c.LocalGet(0), c.Call(0), c.LocalGet(0), c.B(0x0d, 0), c.B(0x1a), c.I32Const(99)),        // br_if 0 (taken iff x != 0)
-			c.Cat(c.LocalGet(0), c.Call(1), c.B(0x0f)),                                                     // return
-			c.Cat(c.LocalGet(0), c.Call(0), c.I32Const(0), c.B(0x0e, 0, 0)),                                // br_table
+			c.Cat(c.LocalGet(0), c.Call(0)),                                                                   // end
+			c.Cat(c.LocalGet(0), c.Call(1), c.B(0x0c, 0)),                                                     // br 0
+			c.Cat(c.LocalGet(0), c.Call(0), c.LocalGet(0), c.B(0x0d, 0), c.B(0x1a), c.I32Const(99)),           // br_if 0 (taken iff x != 0)
+			c.Cat(c.LocalGet(0), c.Call(1), c.B(0x0f)),                                                        // return
+			c.Cat(c.LocalGet(0), c.Call(0), c.I32Const(0), c.B(0x0e, 0, 0)),                                   // br_table
 			c.Cat(c.LocalGet(0), c.Call(2), c.LocalGet(0), c.B(0x0d, 0), c.B(0x1a), c.LocalGet(0), c.Call(1)), // nested local call then br_if
 		}
 		for i, b := range bodies {
@@ -376,5 +377,38 @@ func main() {
 	wg.Wait()
 	for i := range cases {
 		out.Emit(cases[i])
+	}
+	// linked cases (link.go): several modules, start functions, failure paths at depth, listener subsets
+	lrng := c.NewRng(*seed ^ 0x5eed1e)
+	lcs := make([]*lcase, *ln)
+	for i := range lcs {
+		lcs[i] = genLinked(lrng, i)
+	}
+	lcs = append(lcs, fixedLinked(false, "alternate"), fixedLinked(false, "hosts"), fixedLinked(false, "guests"), fixedLinked(true, "alternate"))
+	outs := make([]LCase, len(lcs))
+	for i := range lcs {
+		outs[i] = lcs[i].export(len(cases) + i)
+		outs[i].Fixed = i >= *ln
+	}
+	for i := range lcs {
+		for _, eng := range []string{"interp", "compiler"} {
+			wg.Add(1)
+			sem <- struct{}{}
+			go func(i int, eng string) {
+				defer wg.Done()
+				defer func() { <-sem }()
+				po := map[string]passObs{"A": runLinked(eng, lcs[i], allMask(lcs[i])), "plain": runLinked(eng, lcs[i], nil)}
+				if lcs[i].mode != "all" {
+					po["B"] = runLinked(eng, lcs[i], lcs[i].mask)
+				}
+				mu.Lock()
+				outs[i].Engines[eng] = po
+				mu.Unlock()
+			}(i, eng)
+		}
+	}
+	wg.Wait()
+	for i := range outs {
+		out.Emit(outs[i])
 	}
 }
